@@ -4,6 +4,7 @@ import (
 	"bytes"
 	"encoding/json"
 	"encoding/xml"
+	"errors"
 	"fmt"
 	"mime/multipart"
 	"net/http"
@@ -14,6 +15,7 @@ import (
 
 	"github.com/gookit/rux"
 	"github.com/gookit/rux/pkg/binding"
+	"github.com/gookit/validate"
 )
 
 // C18: binding picks its source from the request and round-trips data.
@@ -43,6 +45,32 @@ type c18Val struct {
 type c18Checked struct {
 	Name string `json:"name" form:"name" query:"name" xml:"name" validate:"required|minLen:3"`
 	Age  int    `json:"age" form:"age" query:"age" xml:"age" validate:"min:1"`
+}
+
+// no validate / filter tags: the rules are the application's own validator's (c18OwnValidator)
+type c18Untagged struct {
+	Name string `json:"name" form:"name" query:"name" xml:"name"`
+	Age  int    `json:"age" form:"age" query:"age" xml:"age"`
+}
+
+type c18OwnValidator struct{}
+
+func (c18OwnValidator) Validate(obj any) error {
+	if p, ok := obj.(*c18Untagged); ok && (len(p.Name) < 3 || p.Age < 1) {
+		return errors.New("c18: name too short or age below 1")
+	}
+	return nil
+}
+
+// no tags either: the rules are declared in code (gookit/validate's ConfigValidation hook)
+type c18Configured struct {
+	Name string `json:"name" form:"name" query:"name" xml:"name"`
+	Age  int    `json:"age" form:"age" query:"age" xml:"age"`
+}
+
+func (c18Configured) ConfigValidation(v *validate.Validation) {
+	v.StringRule("Name", "required|minLen:3")
+	v.StringRule("Age", "min:1")
 }
 
 var c18Strings = []string{"", "a", "héllo wörld", "a&b=c", "x;y", "1,2", "<tag>", "\"q\"", "tab\there", "日本", "a+b c", "%41", "line\nbreak"}
@@ -98,7 +126,7 @@ func c18Gen(r *Rng, tier string, i int) Sx {
 		} else {
 			toggles += "d"
 		}
-		return L(A("val"), B(enabled), B(r.Bool()), A(r.Pick([]string{"json", "xml", "form", "query"})), A("t"+toggles), A(r.Pick([]string{"plain", "plain", "samename"})))
+		return L(A("val"), B(enabled), B(r.Bool()), A(r.Pick([]string{"json", "xml", "form", "query"})), A("t"+toggles), A(r.Pick([]string{"plain", "plain", "samename", "custom", "config"})))
 	}
 }
 
@@ -308,6 +336,28 @@ func c18Exec(c Sx) (out Sx) {
 			req.Header.Set("Content-Type", "application/x-www-form-urlencoded")
 		default:
 			req = httptest.NewRequest("GET", "/x?"+vs.Encode(), nil)
+		}
+		if len(c.List) > 5 && (c.List[5].Atom == "custom" || c.List[5].Atom == "config") {
+			// the rules do not come from struct tags: a validator of the application's own installed in binding.Validator
+			// (custom), or the default validator with rules declared in code by the type's ConfigValidation hook (config)
+			if fm == "xml" { // these types have no XMLName: use the query form
+				req = httptest.NewRequest("GET", "/x?"+vs.Encode(), nil)
+			}
+			var err error
+			if c.List[5].Atom == "custom" {
+				if enabled {
+					binding.Validator = c18OwnValidator{}
+				}
+				var got c18Untagged
+				err = c18Auto(req, &got, len(c.String()))
+			} else {
+				var got c18Configured
+				err = c18Auto(req, &got, len(c.String()))
+			}
+			if err != nil {
+				return L(A("val"), A("err"))
+			}
+			return L(A("val"), A("ok"))
 		}
 		if len(c.List) > 5 && c.List[5].Atom == "samename" {
 			// a rule-less type of the same printed name is bound first; the struct with rules is still validated
